@@ -7,14 +7,22 @@ use bzip2::read::BzDecoder;
 use bzip2::write::BzEncoder;
 use std::io::{Read, Write};
 
-/// Decompress using BZip2
-pub(crate) fn decompress(data: &[u8], expected_size: usize) -> Result<Vec<u8>> {
+/// Decompress a BZip2 stream whose decompressed size is not known in advance
+/// (an intermediate stage of a multi-method chain)
+pub(crate) fn decompress_unsized(data: &[u8], capacity_hint: usize) -> Result<Vec<u8>> {
     let mut decoder = BzDecoder::new(data);
-    let mut decompressed = Vec::with_capacity(expected_size);
+    let mut decompressed = Vec::with_capacity(capacity_hint);
 
     decoder
         .read_to_end(&mut decompressed)
         .map_err(|e| decompression_error("BZip2", e))?;
+
+    Ok(decompressed)
+}
+
+/// Decompress using BZip2
+pub(crate) fn decompress(data: &[u8], expected_size: usize) -> Result<Vec<u8>> {
+    let decompressed = decompress_unsized(data, expected_size)?;
 
     if decompressed.len() != expected_size {
         return Err(decompression_error(
